@@ -278,7 +278,8 @@ def _replay_chunk(args):
             why = agree(rec, res)
             if why:
                 out.append(dict(pid=pid, dec=rec['dec'], opt=o['name'], why=why, expected=mp.spec_outcome(rec),
-                                observed=res['out'], exp_log=rec['log'], obs_log=res['log'], bad=rec.get('bad', '')))
+                                observed=res['out'], exp_log=rec['log'], obs_log=res['log'], bad=rec.get('bad', ''),
+                                exp_gl=rec.get('gl', []), obs_gl=res.get('gl', [])))
     if record_namer:
         naming.Namer.new_symbol = orig_new_symbol
     return dict(div=out, n=n, conv_errors=conv_errors, opcalls=list(opcalls.values()), routing=routing, namer=namer_calls,
